@@ -564,8 +564,16 @@ def _extract_coefficient_impl(expr: Expression, var: Variable) -> float:
                 return _extract_coefficient_impl(expr.left, var) * float(
                     expr.right.value
                 )
-            # For linear expressions, at least one side must be constant
-            # This fallback handles edge cases where constants are nested
+            # For linear expressions, at least one side must be constant-valued:
+            # a constant sub-expression such as (2 + 3) scales the other side
+            if compute_degree(expr.left) == 0:
+                return _extract_constant_impl(expr.left) * _extract_coefficient_impl(
+                    expr.right, var
+                )
+            if compute_degree(expr.right) == 0:
+                return _extract_coefficient_impl(
+                    expr.left, var
+                ) * _extract_constant_impl(expr.right)
             return 0.0
 
         if expr.op == "/":
@@ -633,9 +641,20 @@ def _extract_constant_impl(expr: Expression) -> float:
     if isinstance(expr, Variable):
         return 0.0
 
-    # Vector expressions have no constant term (purely linear)
+    # Vector expressions over plain variables have no constant term; the
+    # elements of a vector *expression* (c @ (x + 1)) may carry constants
     if isinstance(expr, (LinearCombination, VectorSum)):
-        return 0.0
+        elements = getattr(expr.vector, "_expressions", None)
+        if elements is None:
+            return 0.0
+        if isinstance(expr, LinearCombination):
+            return float(
+                sum(
+                    float(expr.coefficients[i]) * _extract_constant_impl(elem)
+                    for i, elem in enumerate(elements)
+                )
+            )
+        return float(sum(_extract_constant_impl(elem) for elem in elements))
 
     if isinstance(expr, BinaryOp):
         if expr.op == "+":
@@ -654,7 +673,11 @@ def _extract_constant_impl(expr: Expression) -> float:
                 return float(expr.left.value) * _extract_constant_impl(expr.right)
             if isinstance(expr.right, Constant):
                 return _extract_constant_impl(expr.left) * float(expr.right.value)
-            return 0.0
+            # One side of a linear product is constant-valued, so the constant
+            # term of the product is the product of the constant terms
+            return _extract_constant_impl(expr.left) * _extract_constant_impl(
+                expr.right
+            )
 
         if expr.op == "/":
             if isinstance(expr.right, Constant):
@@ -666,6 +689,10 @@ def _extract_constant_impl(expr: Expression) -> float:
                 exp = int(expr.right.value)
                 if exp == 0:
                     return 1.0  # x**0 = 1
+                if exp == 1:
+                    return _extract_constant_impl(expr.left)  # (x + 5)**1
+                if compute_degree(expr.left) == 0:
+                    return _extract_constant_impl(expr.left) ** exp
             return 0.0
 
     if isinstance(expr, UnaryOp):
@@ -904,7 +931,21 @@ def _extract_all_coefficients_impl(
                     expr.left, var_index, result, multiplier * float(expr.right.value)
                 )
                 return
-            # Both sides non-constant - no linear contribution
+            # A constant sub-expression such as (2 + 3) scales the other side
+            if compute_degree(expr.left) == 0:
+                _extract_all_coefficients_impl(
+                    expr.right,
+                    var_index,
+                    result,
+                    multiplier * _extract_constant_impl(expr.left),
+                )
+            elif compute_degree(expr.right) == 0:
+                _extract_all_coefficients_impl(
+                    expr.left,
+                    var_index,
+                    result,
+                    multiplier * _extract_constant_impl(expr.right),
+                )
             return
 
         if expr.op == "/":
